@@ -254,6 +254,17 @@ META = {
 }
 
 
+class _Resource(object):
+    def __init__(self, name):
+        self.name = name
+
+    def __repr__(self):
+        return self.name
+
+
+_MY_CORES, _MY_SDRAM = _Resource("my_cores"), _Resource("my_sdram")
+
+
 def _mod(name):
     return importlib.import_module(name)
 
@@ -451,8 +462,14 @@ def walk(ctx, tables, pk, src_chip, w, h, live, links, endpoint_links, tag):
 # ----------------------------------------------------------------------
 def h_e2e(ctx, graph, w, h, torus, placer, method, radius=20, target="none",
           links="none", deadchip="none", via="hand", dems=(0,), W=3, cap=3,
-          pin=False, exc=False, rng="all", tb="all", K=1, at=()):
+          pin=False, exc=False, rng="all", tb="all", K=1, at=(),
+          res="default"):
     from rig.place_and_route.machine import Machine, Cores, SDRAM, SRAM
+    custom = {}
+    if res == "custom":
+        # the caller's own resource objects in place of Cores and SDRAM
+        Cores, SDRAM = _MY_CORES, _MY_SDRAM
+        custom = {"core_resource": Cores, "sdram_resource": SDRAM}
     from rig.place_and_route.constraints import (
         LocationConstraint, ReserveResourceConstraint,
         RouteEndpointConstraint)
@@ -626,7 +643,7 @@ def h_e2e(ctx, graph, w, h, torus, placer, method, radius=20, target="none",
                                 **place_kwargs)
                 al = greedy.allocate(vr, nets, machine, constraints, pl)
                 rt = ner.route(vr, nets, machine, constraints, pl, al,
-                               radius=radius)
+                               Cores, radius=radius)
                 tables = routing_tree_to_tables(rt, net_keys)
                 if method == "none":
                     tables = dict(tables)
@@ -641,7 +658,7 @@ def h_e2e(ctx, graph, w, h, torus, placer, method, radius=20, target="none",
                     vr, apps, nets, net_keys, machine,
                     list(user_constraints), place=pmod.place,
                     place_kwargs=place_kwargs,
-                    route_kwargs={"radius": radius})
+                    route_kwargs={"radius": radius}, **custom)
             elif via == "pnr":
                 wr = _mod("rig.place_and_route.wrapper")
                 mcm = _mod("rig.machine_control.machine_controller")
@@ -673,7 +690,7 @@ def h_e2e(ctx, graph, w, h, torus, placer, method, radius=20, target="none",
                 pl, al, amap, tables = wr.place_and_route_wrapper(
                     vr, apps, nets, net_keys, si, list(user_constraints),
                     place=pmod.place, place_kwargs=place_kwargs,
-                    route_kwargs={"radius": radius}, **kw)
+                    route_kwargs={"radius": radius}, **dict(kw, **custom))
             else:
                 raise ValueError(via)
         except (InsufficientResourceError, MachineHasDisconnectedSubregion,
@@ -784,7 +801,7 @@ def h_e2e(ctx, graph, w, h, torus, placer, method, radius=20, target="none",
 # ----------------------------------------------------------------------
 DEFAULTS = dict(radius=20, target="none", links="none", deadchip="none",
                 via="hand", dems=(0,), W=3, cap=3, pin=0, exc=False,
-                rng="all", tb="all", K=1, at=())
+                rng="all", tb="all", K=1, at=(), res="default")
 
 
 def _name(p):
@@ -807,6 +824,8 @@ def _name(p):
         s += " tb=%s" % p["tb"]
     if p["K"] != 1:
         s += " K=%d" % p["K"]
+    if p["res"] != "default":
+        s += " res=%s" % p["res"]
     return s
 
 
@@ -1089,6 +1108,13 @@ def units(tier, seed):
          dems=(0, 1, 2), links="sym", deadchip="any", wit=HOP)
     core("tri", 2, 2, False, "sa", "rdr", via="wrapper", cap=3, pin=1,
          wit=HOP)
+    # ... called with the caller's own core and SDRAM resources
+    core("fan", 2, 2, False, "sequential", "rdr", via="wrapper", cap=3,
+         dems=(0, 1, 2), res="custom", wit=HOP + ("core-delivery",))
+    core("merge", 2, 2, False, "sequential", "rdr", via="pnr", cap=4,
+         dems=(0, 1), res="custom", wit=HOP + ("core-delivery",))
+    core("pair", 2, 1, False, "sequential", "oc", cap=3, dems=(0, 1),
+         res="custom", wit=("mapped", "core-delivery"))
 
     # ---- the minimisation stage on a table larger than the menu's graphs
     # put on one chip: C04's harness through minimise_tables (five entries
